@@ -8,7 +8,10 @@ import CyVerif.Lemmas.C03Helpers
 `c.ty.w` (universally quantified, `≥ 2`), signed or unsigned; `c.wl` is the
 width of C `long`, `c.bConst` says whether the divisor is a compile-time
 constant, `c.cdivision` is the directive, `c.guardMinusOne` selects the helper
-bodies of the pinned tree (`false`) or the repaired ones (`true`).
+bodies of the pinned tree (`false`) or the repaired ones (`true`), `c.guardAllWidths`
+selects the call-site `OverflowError` guard of the pinned tree (`false`: only types as
+wide as `long`, only run-time divisors) or `DivNode.minus1_check` (`true`: every signed
+width, constant divisors too).  The code as it is now is `guardMinusOne = guardAllWidths = true`.
 Python `//` is `Int.fdiv`, `%` is `Int.fmod`; C `/`, `%` are `Int.tdiv`, `Int.tmod`.
 -/
 namespace CyVerif.C03
@@ -34,24 +37,10 @@ theorem floordiv_correct (c : Cfg) (hw : 2 ≤ c.ty.w) (hcd : c.cdivision = fals
   · -- unsigned: plain C division after the zero check
     rw [inRange_unsigned hs] at ha hb
     have hq := cdivC_ok (t := c.ty) (a := a) hb0 (by simp [hs])
-    simp only [genDiv, hz, Cfg.overflowGuard, Cfg.useC, hs, hcd, hq, toOut]
+    simp only [genDiv, hz, overflowGuard_unsigned hs, Cfg.useC, hs, hcd, hq, toOut]
     simp [Int.fdiv_eq_tdiv_of_nonneg ha.1 hb.1]
   · have hne := (fdiv_fits_iff hs hw ha hb hb0).1 hfit
-    have hg : c.overflowGuard a b = false := by
-      simp only [Cfg.overflowGuard, hs]
-      by_cases hb1 : b = -1
-      · by_cases hwl : c.ty.w = c.wl
-        · have hai := (inRange_signed hs a).1 ha
-          rw [hwl] at hai
-          have hna : a ≠ -(2 ^ (c.wl - 1)) := by
-            intro h; apply hne; rw [min_signed hs, hwl]; exact ⟨h, hb1⟩
-          have : negWouldOverflow c.wl a = false := by
-            cases hh : negWouldOverflow c.wl a
-            · rfl
-            · exact absurd ((negWouldOverflow_iff (by omega) hai.1 hai.2).1 hh) hna
-          simp [this]
-        · simp [hwl]
-      · simp [hb1]
+    have hg := overflowGuard_false hs hw ha hne
     simp only [genDiv, hz, hg, Cfg.useC, hs, hcd, divInt_eq_fdiv hs hw ha hb hb0 hne, toOut]
     simp
 
@@ -134,25 +123,47 @@ theorem mod_full_false (c : Cfg) (hcd : c.cdivision = false) (hs : c.ty.signed =
 
 /-- The section-5 witness F1: 32-bit `int`, `a = -2^31`, `b = -1`, run-time divisor. -/
 theorem mod_full_false_int32 :
-    genMod { ty := ⟨32, true⟩, wl := 64, cdivision := false, bConst := false, guardMinusOne := false }
+    genMod { ty := ⟨32, true⟩, wl := 64, cdivision := false, bConst := false, guardMinusOne := false,
+             guardAllWidths := false }
       (-2147483648) (-1) = .ub "divOverflow" :=
   mod_min_neg_one_ub _ rfl rfl rfl
 
 /-! ## The `b == -1` overflow guard of `//` and the remaining undefined points -/
 
-/-- Types as wide as `long`, run-time divisor: `MIN // -1` raises `OverflowError`. -/
+/-- Old guard, types as wide as `long`, run-time divisor: `MIN // -1` raises `OverflowError`. -/
 theorem floordiv_guard_long (c : Cfg) (hw : 2 ≤ c.ty.w) (hcd : c.cdivision = false)
-    (hs : c.ty.signed = true) (hwl : c.ty.w = c.wl) (hbc : c.bConst = false) :
+    (hga : c.guardAllWidths = false) (hs : c.ty.signed = true) (hwl : c.ty.w = c.wl) (hbc : c.bConst = false) :
     genDiv c c.ty.min (-1) = .err "OverflowError" := by
-  have hn : negWouldOverflow c.wl c.ty.min = true := by
-    rw [min_signed hs, hwl]
-    exact (negWouldOverflow_iff (by omega) (by omega) (by have := two_pow_pos (c.wl - 1); omega)).2 rfl
-  simp [genDiv, Cfg.zeroCheck, Cfg.overflowGuard, hcd, hs, hwl, hbc, hn]
+  have hg := overflowGuard_old_min_neg_one hga hs hw hcd
+  simp only [hwl, hbc, decide_true, Bool.not_false, Bool.and_self] at hg
+  simp [genDiv, hg]
 
-/-- Pinned tree: the set of operand pairs on which the generated `//` has undefined behaviour is
-exactly `(MIN, -1)` in signed types that are not as wide as `long`, or with a constant divisor. -/
+/-- New guard (`minus1_check`): `MIN // -1` raises `OverflowError` in EVERY signed type, for a
+run-time and for a constant divisor, whichever helper variant is in use. -/
+theorem floordiv_guard_all (c : Cfg) (hw : 2 ≤ c.ty.w) (hcd : c.cdivision = false)
+    (hga : c.guardAllWidths = true) (hs : c.ty.signed = true) :
+    genDiv c c.ty.min (-1) = .err "OverflowError" := by
+  simp [genDiv, overflowGuard_all_min_neg_one hga hs hw hcd]
+
+/-- The code as it is now, `//` on a signed type with cdivision off, total description: every pair of
+values with a non-zero divisor gives the floor quotient, except `(MIN, -1)` (the only pair whose
+quotient does not fit), which raises `OverflowError`. -/
+theorem floordiv_total (c : Cfg) (hw : 2 ≤ c.ty.w) (hcd : c.cdivision = false)
+    (hga : c.guardAllWidths = true) (hs : c.ty.signed = true) {a b : Int}
+    (ha : c.ty.InRange a) (hb : c.ty.InRange b) (hb0 : b ≠ 0) :
+    genDiv c a b = if a = c.ty.min ∧ b = -1 then .err "OverflowError" else .ok (a.fdiv b) := by
+  split
+  · rename_i h
+    obtain ⟨rfl, rfl⟩ := h
+    exact floordiv_guard_all c hw hcd hga hs
+  · rename_i h
+    exact floordiv_correct c hw hcd ha hb hb0 ((fdiv_fits_iff hs hw ha hb hb0).2 h)
+
+/-- Old guard, unrepaired helper: the set of operand pairs on which the generated `//` has undefined
+behaviour is exactly `(MIN, -1)` in signed types that are not as wide as `long`, or with a constant divisor. -/
 theorem floordiv_ub_iff (c : Cfg) (hw : 2 ≤ c.ty.w) (hcd : c.cdivision = false)
-    (hfix : c.guardMinusOne = false) {a b : Int} (ha : c.ty.InRange a) (hb : c.ty.InRange b) :
+    (hfix : c.guardMinusOne = false) (hga : c.guardAllWidths = false)
+    {a b : Int} (ha : c.ty.InRange a) (hb : c.ty.InRange b) :
     (∃ k, genDiv c a b = .ub k) ↔
       (c.ty.signed = true ∧ a = c.ty.min ∧ b = -1 ∧ (c.ty.w ≠ c.wl ∨ c.bConst = true)) := by
   constructor
@@ -167,7 +178,7 @@ theorem floordiv_ub_iff (c : Cfg) (hw : 2 ≤ c.ty.w) (hcd : c.cdivision = false
           by_cases hwl : c.ty.w = c.wl
           · right
             cases hbc : c.bConst
-            · rw [floordiv_guard_long c hw hcd hs hwl hbc] at hk; cases hk
+            · rw [floordiv_guard_long c hw hcd hga hs hwl hbc] at hk; cases hk
             · rfl
           · left; exact hwl
         · rw [floordiv_correct c hw hcd ha hb hb0 ((fdiv_fits_iff hs hw ha hb hb0).2 hne)] at hk
@@ -175,11 +186,23 @@ theorem floordiv_ub_iff (c : Cfg) (hw : 2 ≤ c.ty.w) (hcd : c.cdivision = false
   · rintro ⟨hs, rfl, rfl, hor⟩
     refine ⟨"divOverflow", ?_⟩
     have hg : c.overflowGuard c.ty.min (-1) = false := by
-      simp only [Cfg.overflowGuard, Cfg.zeroCheck, hcd, hs]
+      rw [overflowGuard_old_min_neg_one hga hs hw hcd]
       rcases hor with h | h
       · simp [h]
       · simp [h]
     simp [genDiv, Cfg.zeroCheck, hg, Cfg.useC, hcd, hs, hfix, divInt_min_neg_one hs, toOut]
+
+/-- New guard: with cdivision off the generated `//` has no undefined behaviour on any pair of values of
+the type, even with the unrepaired `DivInt` (the guard catches `(MIN, -1)` before the helper runs). -/
+theorem floordiv_no_ub_guarded (c : Cfg) (hw : 2 ≤ c.ty.w) (hcd : c.cdivision = false)
+    (hga : c.guardAllWidths = true) {a b : Int} (ha : c.ty.InRange a) (hb : c.ty.InRange b) (k : String) :
+    genDiv c a b ≠ .ub k := by
+  by_cases hb0 : b = 0
+  · subst hb0; rw [(zero_divisor_raises c hcd a).1]; intro h; cases h
+  · cases hs : c.ty.signed
+    · rw [floordiv_correct c hw hcd ha hb hb0 (floordiv_fits_unsigned hs ha hb)]; intro h; cases h
+    · rw [floordiv_total c hw hcd hga hs ha hb hb0]
+      split <;> (intro h; cases h)
 
 /-- Pinned tree: the generated `%` has undefined behaviour exactly on `(MIN, -1)` of signed types. -/
 theorem mod_ub_iff (c : Cfg) (hw : 2 ≤ c.ty.w) (hcd : c.cdivision = false)
@@ -231,13 +254,13 @@ theorem cdivision_trunc (c : Cfg) (hw : 2 ≤ c.ty.w) (hcd : c.cdivision = true)
     (hne : ¬ (c.ty.signed = true ∧ a = c.ty.min ∧ b = -1)) :
     genDiv c a b = .ok (a.tdiv b) ∧ genMod c a b = .ok (a.tmod b) ∧ c.ty.InRange (a.tdiv b) := by
   refine ⟨?_, ?_, tdiv_inRange hw ha hb hb0 hne⟩
-  · simp [genDiv, Cfg.zeroCheck, Cfg.overflowGuard, Cfg.useC, hcd, cdivC_ok hb0 hne, toOut]
+  · simp [genDiv, Cfg.zeroCheck, overflowGuard_cdivision hcd, Cfg.useC, hcd, cdivC_ok hb0 hne, toOut]
   · simp [genMod, Cfg.zeroCheck, Cfg.useC, hcd, cmodC_ok hb0 hne, toOut]
 
 /-- With the `cdivision` directive no zero check is emitted: a zero divisor is C undefined behaviour. -/
 theorem cdivision_zero_ub (c : Cfg) (hcd : c.cdivision = true) (a : Int) :
     genDiv c a 0 = .ub "divByZero" ∧ genMod c a 0 = .ub "divByZero" := by
-  simp [genDiv, genMod, Cfg.zeroCheck, Cfg.overflowGuard, Cfg.useC, hcd, cdivC, cmodC, toOut]
+  simp [genDiv, genMod, Cfg.zeroCheck, overflowGuard_cdivision hcd, Cfg.useC, hcd, cdivC, cmodC, toOut]
 
 /-! ## Both forms of the sign adjustment agree -/
 
@@ -249,24 +272,33 @@ theorem const_form_eq {t : CTy} (hs : t.signed = true) (hw : 1 ≤ t.w) {r b : I
 
 /-! ## Non-vacuity -/
 
-def cfgOf (w : Nat) (s cd bc fx : Bool) : Cfg :=
-  { ty := ⟨w, s⟩, wl := 64, cdivision := cd, bConst := bc, guardMinusOne := fx }
+def cfgOf (w : Nat) (s cd bc fx ga : Bool) : Cfg :=
+  { ty := ⟨w, s⟩, wl := 64, cdivision := cd, bConst := bc, guardMinusOne := fx, guardAllWidths := ga }
 
 /-- Concrete non-trivial operands satisfy the hypotheses of `floordiv_correct` /
-`mod_correct_partial` (8-bit signed, opposite signs, inexact). -/
-example : (cfgOf 8 true false false false).ty.InRange (-7) ∧ (cfgOf 8 true false false false).ty.InRange 2 ∧
-    (2 : Int) ≠ 0 ∧ (cfgOf 8 true false false false).ty.InRange (Int.fdiv (-7) 2) ∧
-    ¬ ((-7 : Int) = (cfgOf 8 true false false false).ty.min ∧ (2 : Int) = -1) := by decide
+`mod_correct_partial` / `floordiv_total` (8-bit signed, opposite signs, inexact). -/
+example : (cfgOf 8 true false false true true).ty.InRange (-7) ∧ (cfgOf 8 true false false true true).ty.InRange 2 ∧
+    (2 : Int) ≠ 0 ∧ (cfgOf 8 true false false true true).ty.InRange (Int.fdiv (-7) 2) ∧
+    ¬ ((-7 : Int) = (cfgOf 8 true false false true true).ty.min ∧ (2 : Int) = -1) := by decide
 
-example : genDiv (cfgOf 8 true false false false) (-7) 2 = .ok (-4) ∧
-    genMod (cfgOf 8 true false false false) (-7) 2 = .ok 1 ∧
-    genDiv (cfgOf 8 true false true false) 7 (-2) = .ok (-4) ∧
-    genMod (cfgOf 8 true false true false) 7 (-2) = .ok (-1) ∧
-    genDiv (cfgOf 32 false false false false) 4294967295 7 = .ok 613566756 ∧
-    genMod (cfgOf 64 true false false true) (-9223372036854775808) (-1) = .ok 0 ∧
-    genDiv (cfgOf 64 true false false false) (-9223372036854775808) (-1) = .err "OverflowError" ∧
-    genDiv (cfgOf 32 true false false false) (-2147483648) (-1) = .ub "divOverflow" ∧
-    genDiv (cfgOf 8 true true false false) (-7) 2 = .ok (-3) ∧
-    genMod (cfgOf 8 true true false false) (-7) 2 = .ok (-1) := by decide
+/-- the pinned tree (`fx = ga = false`) -/
+example : genDiv (cfgOf 8 true false false false false) (-7) 2 = .ok (-4) ∧
+    genMod (cfgOf 8 true false false false false) (-7) 2 = .ok 1 ∧
+    genDiv (cfgOf 8 true false true false false) 7 (-2) = .ok (-4) ∧
+    genMod (cfgOf 8 true false true false false) 7 (-2) = .ok (-1) ∧
+    genDiv (cfgOf 32 false false false false false) 4294967295 7 = .ok 613566756 ∧
+    genDiv (cfgOf 64 true false false false false) (-9223372036854775808) (-1) = .err "OverflowError" ∧
+    genDiv (cfgOf 32 true false false false false) (-2147483648) (-1) = .ub "divOverflow" ∧
+    genDiv (cfgOf 8 true true false false false) (-7) 2 = .ok (-3) ∧
+    genMod (cfgOf 8 true true false false false) (-7) 2 = .ok (-1) := by decide
+
+/-- the code as it is now (`fx = ga = true`) -/
+example : genDiv (cfgOf 8 true false false true true) (-7) 2 = .ok (-4) ∧
+    genMod (cfgOf 64 true false false true true) (-9223372036854775808) (-1) = .ok 0 ∧
+    genDiv (cfgOf 32 true false false true true) (-2147483648) (-1) = .err "OverflowError" ∧
+    genDiv (cfgOf 64 true false true true true) (-9223372036854775808) (-1) = .err "OverflowError" ∧
+    genDiv (cfgOf 32 true false true true true) (-2147483648) 7 = .ok (-306783379) ∧
+    genDiv (cfgOf 32 true true false true true) (-2147483648) (-1) = .ub "divOverflow" ∧
+    genMod (cfgOf 32 true false true true true) (-2147483648) (-1) = .ok 0 := by decide
 
 end CyVerif.C03
